@@ -49,7 +49,12 @@ def graph? : SExp → Option LGraph
     let props ← props.listOf? fun p => match p with
       | .list [e, c] => do pure (← exp? e, ← cond? c)
       | _ => none
-    pure { n, init, edges := edges.toArray, bnd, props }
+    -- well-formedness (every initial state and every edge target is a state number < n): the closure `reachSet` and the
+    -- other oracle functions are adequate only then (notes/oracles.md, `C19_oracle_reachSet_ill_formed`); an ill-formed graph is
+    -- refused (`bad-request`) rather than judged
+    if init.all (· < n) && edges.all (fun row => row.all (fun e => match e.2 with | some t => t < n | none => true)) then
+      pure { n, init, edges := edges.toArray, bnd, props }
+    else none
   | _ => none
 
 def LGraph.toSys (g : LGraph) : Sys Nat Nat where
